@@ -431,11 +431,30 @@ func sorterRule(p *Prog, c *Check, rule, spec string) {
 
 func sorterContract(p *Prog, fn *ssa.Function) (bool, string) {
 	fi := p.Info(fn)
-	calls := callsTo(fn, "sort.Slice")
+	var calls []ssa.CallInstruction
+	generic := false
+	for _, b := range fn.Blocks {
+		for _, in := range b.Instrs {
+			ci, ok := in.(ssa.CallInstruction)
+			if !ok {
+				continue
+			}
+			switch callNameGeneric(ci) {
+			case "sort.Slice", "sort.SliceStable":
+				calls = append(calls, ci)
+			case "slices.SortFunc", "slices.SortStableFunc":
+				calls = append(calls, ci)
+				generic = true
+			}
+		}
+	}
 	if len(calls) != 1 {
-		return false, fmt.Sprintf("expected one sort.Slice call, found %d", len(calls))
+		return false, fmt.Sprintf("expected one sort call (sort.Slice / slices.SortFunc), found %d", len(calls))
 	}
 	ci := calls[0]
+	if generic {
+		return sorterContractCmp(p, fn, ci)
+	}
 	args := ci.Common().Args
 	a0 := unbox(args[0])
 	sorted := fi.T(a0)
@@ -530,4 +549,63 @@ func c02Shares(p *Prog, c *Check) {
 		"InsertDecryptionKeySharesMsg(...) == nil",
 	)
 	c.Result(miss == "", rule, "ConstructDecryptionKeyShares:ok", p.Rel(fn.Pos()), shortFn(fn), "returns shares (err == nil)", "summary of the successful returns lacks `"+miss+"`", used...)
+}
+
+// sorterContractCmp: slices.SortFunc(X, cmp) with cmp = bytes.Compare on the two elements (directly or
+// through a closure), X a full copy of the parameter and the value returned.
+func sorterContractCmp(p *Prog, fn *ssa.Function, ci ssa.CallInstruction) (bool, string) {
+	fi := p.Info(fn)
+	args := ci.Common().Args
+	a0 := args[0]
+	sorted := fi.T(a0)
+	ret := returnsOf(fn)
+	if len(ret) != 1 || fi.T(ret[0].Results[0]).s != sorted.s {
+		return false, "the slice handed to the sort is not (all of) the slice returned"
+	}
+	if !instrDominates(ci, ret[0]) {
+		return false, "the sort does not run on every path"
+	}
+	okCmp := false
+	switch f := args[1].(type) {
+	case *ssa.Function:
+		if f.Blocks == nil {
+			okCmp = calleeName(f) == "bytes.Compare"
+		} else {
+			okCmp = cmpIsBytesCompare(p, f)
+		}
+	case *ssa.MakeClosure:
+		okCmp = cmpIsBytesCompare(p, f.Fn.(*ssa.Function))
+	case *ssa.ChangeType:
+		if g, ok := f.X.(*ssa.Function); ok {
+			okCmp = calleeName(g) == "bytes.Compare" || g.Blocks != nil && cmpIsBytesCompare(p, g)
+		}
+	}
+	if !okCmp {
+		return false, "the comparison function is not bytes.Compare on the two elements"
+	}
+	hasCopy := false
+	for _, cc := range callsTo(fn, "builtin:copy") {
+		if fi.T(cc.Common().Args[0]).s == sorted.s && fi.T(cc.Common().Args[1]).s == fi.T(fn.Params[0]).s && instrDominates(cc, ci) {
+			hasCopy = true
+		}
+	}
+	if !hasCopy {
+		return false, "the sorted slice is not a full copy of the input"
+	}
+	if ms, isMake := sliceOrigin(a0).(*ssa.MakeSlice); !isMake || !ParsePat("len($p)").Match(fi.T(ms.Len), Binds{"p": fi.T(fn.Params[0])}) {
+		return false, "the sorted slice is not allocated with the input's length"
+	}
+	return true, ""
+}
+
+func cmpIsBytesCompare(p *Prog, f *ssa.Function) bool {
+	if len(f.Params) != 2 {
+		return false
+	}
+	fi := p.Info(f)
+	rs := returnsOf(f)
+	if len(rs) != 1 {
+		return false
+	}
+	return ParsePat("Compare($a, $b)").Match(fi.T(rs[0].Results[0]), Binds{"a": fi.T(f.Params[0]), "b": fi.T(f.Params[1])})
 }
